@@ -11,7 +11,7 @@ struct CodecIp;
 
 impl Family for CodecIp {
     fn gen(rng: &mut Rng, idx: usize) -> String {
-        common::gen_case(rng, idx, &common::Mix { big: 12, cksum_heavy: false })
+        common::gen_case(rng, idx, &common::Mix { big: 6, cksum_heavy: false })
     }
     fn run(case: &str) -> Outcome {
         common::run_case(case)
